@@ -13,8 +13,10 @@
 //!   attachment counter without consuming a descriptor).
 extern crate iceoryx2_bb_loggers;
 
+mod capacity;
 mod gens;
 mod model;
+mod reactor;
 mod select_svc;
 
 use model::{Case, Counters};
@@ -49,6 +51,17 @@ fn body(ctx: &mut Ctx) {
     ctx.enumerate("waitset.exhaustive", &dim, cases, |c, obs| model::run_case(c, obs, &k));
 
     ctx.proptest("waitset.random", ctx.scale(3_000, 75_000), gens::case_strategy(60), |c, obs| model::run_case(c, obs, &k));
+
+    ctx.proptest("reactor.random", ctx.scale(40_000, 1_000_000), reactor::strategy(), |c, obs| reactor::run_case(c, obs));
+
+    let cap_grid = capacity::grid(!ctx.quick());
+    ctx.enumerate("capacity.select_reactor", "FD_SETSIZE descriptors on reactor::posix_select, one more refused, detach / re-attach at every sampled position, dispatch with all descriptors ready", cap_grid.clone().into_iter().filter(|c| c.flavour == 0), |c, obs| capacity::run_reactor(c, obs));
+    ctx.enumerate("capacity.waitset_intervals", "WaitSet on the select() reactor filled to capacity() with interval attachments (descriptor held by nothing / a notification / a far deadline), every attachment kind refused, guard dropped at every sampled position and replaced", cap_grid.clone().into_iter(), |c, obs| capacity::run_intervals(c, obs));
+    let known = ctx.is_open_finding("waitset.capacity.error_value");
+    if known {
+        ctx.count_excluded("waitset.capacity.error_value");
+    }
+    ctx.enumerate("capacity.waitset_descriptors", "WaitSet on the select() reactor filled to capacity() with descriptors (notifications, every 2nd / 7th a far deadline), every attachment kind refused, dispatch with all descriptors ready", cap_grid.into_iter(), |c, obs| capacity::run_descriptors(c, obs, known));
 
     ctx.class("process_calls", k.process_calls.get());
     ctx.class("callback_invocations", k.reports.get());
